@@ -10,6 +10,17 @@ use crate::out::{Ctx, Out};
 use crate::prng::{fnv64, Rng};
 
 fn mixed_valid(rng: &mut Rng, srv: &[u8], k: usize, nsocks: usize, mix: u64) -> Vec<(usize, Vec<u8>)> {
+    let mut v = mixed_valid_fresh(rng, srv, k, nsocks, mix);
+    // now and then a client retransmits: the same datagram again, right behind the original
+    if k >= 3 && rng.chance(1, 6) {
+        let i = rng.usize_below(v.len() - 1);
+        let dup = v[i].clone();
+        v.insert(i + 1, dup);
+    }
+    v
+}
+
+fn mixed_valid_fresh(rng: &mut Rng, srv: &[u8], k: usize, nsocks: usize, mix: u64) -> Vec<(usize, Vec<u8>)> {
     (0..k)
         .map(|_| {
             let s = rng.usize_below(nsocks);
